@@ -337,6 +337,14 @@ def check_generated(ctx, tmpdir):
         lenient = type("Lenient" + dname, (_TagFile,), {"tagcls": tagcls, "nohdr": ID3NoHeaderError, "lenient": True})
         sources.append((dname + "-id3-chunk", _PseudoFmt(dname, "id3", strict), _PseudoFmt(dname, "id3", lenient),
                         (lambda rng, dname=dname: iff_tie.gen_file(rng, dname))))
+    import apefile_tie
+    from mutagen.apev2 import APEv2, APENoHeaderError
+
+    def ape_gen(rng):
+        r = apefile_tie.gen_file(rng)
+        return (r[0], r[1], None) if isinstance(r, tuple) else (r, "file", None)
+    sources.append(("APEv2-tag", _PseudoFmt("APEv2", "ape", type("StrictAPEgen", (_TagFile,), {"tagcls": APEv2, "nohdr": APENoHeaderError, "lenient": False})),
+                    _PseudoFmt("APEv2", "ape", type("LenientAPEgen", (_TagFile,), {"tagcls": APEv2, "nohdr": APENoHeaderError, "lenient": True})), ape_gen))
     byk = {f.kind: f for f in F.TAGGABLE}
     if "DSF" in byk:
         sources.append(("DSF", byk["DSF"], byk["DSF"], lambda rng: dsf_tie.gen_file(rng, "save")))
